@@ -286,8 +286,8 @@ def handleStats (focus : String) (c : Case) : String := Id.run do
     let cmaxv := covI.maxAbs
     -- nalgebra's closed-form inverse for d ≤ 4 (cofactors) loses about κ(HᵀH)^1.5 = κ(H)³ (measured: 8.7e-5
     -- relative error at κ(H) = 2.2e4 in f64), so the bound is 1e3·u·κ(Ĥ)³·d with the column-equilibrated Ĥ (observed up to 108·u·κ³·d: soak seed 11;
-    -- 1.76e3·u·κ³·d for d = 4 with weights spanning six orders of magnitude: soak seed 13 of the last round - the constant is 1e4)
-    let invBound := 1e4 * u * kapH * kapH * kapH * d.toFloat
+    -- 1.76e3·u·κ³·d for d = 4 with weights spanning six orders of magnitude: soak seed 13 of the last round - the constant is 1e5: a decade above the worst value seen)
+    let invBound := 1e5 * u * kapH * kapH * kapH * d.toFloat
     let tolCov := invBound * cmaxv + 1e-300
     if tolCov ≤ 5e-2 * cmaxv then
       acc := { acc with compared := acc.compared + 3 }
